@@ -307,6 +307,24 @@ fn main() {
         let r = if validate_proof_count(c as usize, "x").is_ok() { vec![1] } else { vec![0] };
         out.case(2901, "edge", &[vec![c as i128]], &r);
     }
+    // the aggregator's own layout helpers (unchecked usize arithmetic; release builds wrap)
+    if !cfg!(debug_assertions) {
+        use wormhole_aggregator::private_batch::circuit::constants::aggregated_output as pr;
+        use wormhole_aggregator::public_batch::circuit::constants as pu;
+        let mut cs: Vec<u64> = (0..=70).collect();
+        cs.extend(counts);
+        for _ in 0..200 * scale {
+            cs.push(rng.edge_u64());
+        }
+        for &c in &cs {
+            let n = c as usize;
+            let o = [pr::exit_slots_count(n), pr::nullifiers_count(n), pr::exit_slots_start(), pr::nullifiers_start(n), pr::pi_len(n)];
+            out.case(2904, "pr-layout", &[vec![c as i128]], &seg_usize(&o));
+            // the public-batch module's view of the same private-batch layout must be the same functions
+            let o2 = [pu::private_batch_exit_slots_count(n), pu::private_batch_nullifiers_count(n), pu::private_batch_exit_slots_start(), pu::private_batch_nullifiers_start(n), pu::private_batch_pi_len(n)];
+            out.case(2904, "pr-layout-via-pu", &[vec![c as i128]], &seg_usize(&o2));
+        }
+    }
     let mut pairs: Vec<(u64, u64)> = vec![];
     for &a in &counts {
         for &b in &counts {
@@ -316,6 +334,12 @@ fn main() {
     for _ in 0..2000 * scale {
         pairs.push((rng.edge_u64(), rng.edge_u64()));
         pairs.push((rng.below(70), rng.below(70)));
+    }
+    // every validated pair (the domain of C29_no_wrap), exhaustively
+    for a in 1..=64u64 {
+        for b in 1..=64u64 {
+            pairs.push((a, b));
+        }
     }
     for (a, b) in pairs {
         let r = match public_batch_pi::try_pi_len(a as usize, b as usize) {
@@ -327,6 +351,10 @@ fn main() {
         if !cfg!(debug_assertions) {
             let v = public_batch_pi::pi_len(a as usize, b as usize);
             out.case(2903, "pi_len", &[vec![a as i128, b as i128]], &[v as i128]);
+            use wormhole_aggregator::public_batch::circuit::constants as pu;
+            let (m, n) = (a as usize, b as usize);
+            let o = [pu::public_batch_total_exit_slots(m, n), pu::public_batch_total_nullifiers(m, n), pu::public_batch_exit_slots_start(), pu::public_batch_nullifiers_start(m, n), pu::public_batch_pi_len(m, n)];
+            out.case(2905, "pu-layout", &[vec![a as i128, b as i128]], &seg_usize(&o));
         }
     }
     out.flush();
